@@ -31,7 +31,7 @@ package cs
 //@   requires solver != nil && res != nil && coeffOK(solver) && int(cID) < len(solver.Coefficients)
 //@   panics-only-if cID == 0
 //@   assigns *res
-//@   ensures @divided cID != 0 ==> fmul(*res, old(solver.Coefficients[cID])) == old(*res)
+//@   ensures @divided cID != 0 && fmul(*res, old(solver.Coefficients[cID])) == old(*res)
 
 // ---- one rank-1 row. a, b, c are the row's entries of the three evaluation vectors the Groth16 prover reads.
 // rowOK: every term of the row refers to a coefficient and a wire the solver has (R1C rows carry no
@@ -45,22 +45,31 @@ package cs
 //@   trusted "values[id] = value, solved[id] = true, atomic counter increment (panics on a wire that is already solved)"
 //@   assigns s.nbSolved, s.values[id], s.solved[id]
 //@   ensures s.values[id] == value && s.solved[id]
-// the closure that walks one linear expression: it only ever sets loc to its own tag, and the term it
-// remembers is one of the row
-//@ spec func sepOK(s *solver) bool = alloc(s.a) != alloc(s.b) && alloc(s.a) != alloc(s.c) && alloc(s.b) != alloc(s.c) && alloc(s.a) != alloc(s.Coefficients) && alloc(s.b) != alloc(s.Coefficients) && alloc(s.c) != alloc(s.Coefficients) && alloc(s.a) != alloc(s.values) && alloc(s.b) != alloc(s.values) && alloc(s.c) != alloc(s.values) && alloc(s.values) != alloc(s.Coefficients)
+// psum(vals, solved, coeffs, l, k): the sum of the first k terms of l over the wires that are solved,
+// coefficient * value each (uninterpreted; unfolded one term at a time by the two lemmas in the closure).
+//@ spec func psum(vals []Element, solved []bool, coeffs []Element, l LinearExpression, k int) F
+//@ spec func psumOf(s *solver, l LinearExpression) F = psum(s.values, s.solved, s.Coefficients, l, len(l))
+// the closure that walks one linear expression: it adds exactly the solved terms to *val, only ever sets loc
+// to its own tag, and the term it remembers is an unsolved one of the row
+//@ spec func sepOK(s *solver) bool = alloc(s.a) != alloc(s.b) && alloc(s.a) != alloc(s.c) && alloc(s.b) != alloc(s.c) && alloc(s.a) != alloc(s.Coefficients) && alloc(s.b) != alloc(s.Coefficients) && alloc(s.c) != alloc(s.Coefficients) && alloc(s.a) != alloc(s.values) && alloc(s.b) != alloc(s.values) && alloc(s.c) != alloc(s.values) && alloc(s.values) != alloc(s.Coefficients) && alloc(s.system) != alloc(s)
 //@ contract (*solver).solveR1C$1
 //@   inline
 //@   loop 1 invariant @loc loc == 0 || loc == 1 || loc == 2 || loc == 3
 //@   loop 1 invariant @kept-c coeffOK(solver)
 //@   loop 1 invariant @kept-l leOK(solver, l)
 //@   loop 1 invariant @kept-s sepOK(solver)
-//@   loop 1 invariant @term loc != 0 ==> int(termToCompute.CID) < len(solver.Coefficients) && int(termToCompute.VID) < len(solver.values) && int(termToCompute.VID) < len(solver.solved)
+//@   loop 1 invariant @term loc != 0 ==> int(termToCompute.CID) < len(solver.Coefficients) && int(termToCompute.VID) < len(solver.values) && int(termToCompute.VID) < len(solver.solved) && !solver.solved[termToCompute.VID]
+//@   loop 1 invariant @acc *val == fadd(old(*val), psum(solver.values, solver.solved, solver.Coefficients, l, rangeindex + 1))
+//@   loop 1 lemma @psum0 psum(solver.values, solver.solved, solver.Coefficients, l, 0) == f0
+//   (the unfolding is stated with the accumulator's entry value added on both sides, the form the step needs:
+//   the field's associativity is not among the solver's axioms)
+//@   loop 1 lemma @psum-unfold 0 <= rangeindex + 1 && rangeindex + 1 < len(l) ==> fadd(old(*val), psum(solver.values, solver.solved, solver.Coefficients, l, rangeindex + 2)) == fadd(fadd(old(*val), psum(solver.values, solver.solved, solver.Coefficients, l, rangeindex + 1)), (solver.solved[l[rangeindex + 1].VID] ? termVal(solver, l[rangeindex + 1]) : f0))
 //@ contract (*solver).solveR1C
 //@   props C06
 //@   requires solver != nil && r != nil && coeffOK(solver) && int(cID) < len(solver.a) && int(cID) < len(solver.b) && int(cID) < len(solver.c)
 //@   requires leOK(solver, r.L) && leOK(solver, r.R) && leOK(solver, r.O)
 //   the evaluation vectors, the wire values and the coefficient table are separate arrays
-//@   requires sepOK(solver) && allocated(solver.Coefficients) && allocated(solver.values) && allocated(solver.solved)
+//@   requires sepOK(solver) && allocated(solver.system) && allocated(solver.Coefficients) && allocated(solver.values) && allocated(solver.solved)
 //   (x / y) * y = x for a non-zero y, instantiated for the two divisions of the function (stated with `result` so that it is read in the final state)
 //@   lemma @div-b result == nil && solver.b[cID] != f0 ==> fmul(fmul(solver.c[cID], finv(solver.b[cID])), solver.b[cID]) == solver.c[cID]
 //@   lemma @div-a result == nil && solver.a[cID] != f0 ==> fmul(solver.a[cID], fmul(solver.c[cID], finv(solver.a[cID]))) == solver.c[cID]
@@ -68,3 +77,10 @@ package cs
 //@   ensures @row-holds result == nil ==> fmul(solver.a[cID], solver.b[cID]) == solver.c[cID]
 //   failure: the row is violated (with a zero factor on the other side no value of the open wire repairs it)
 //@   ensures @fails-only-if-violated result != nil ==> fmul(solver.a[cID], solver.b[cID]) != solver.c[cID]
+//   the three entries are what was there plus the row's linear expressions evaluated under the final assignment:
+//   the terms that were solved on entry, plus coefficient * value of the one wire this call solved
+//@   ensures @eval-a result == nil ==> solver.a[cID] == fadd(fadd(old(solver.a[cID]), old(psumOf(solver, r.L))), (loc == 1 ? fmul(solver.Coefficients[termToCompute.CID], solver.values[termToCompute.VID]) : f0))
+//@   ensures @eval-b result == nil ==> solver.b[cID] == fadd(fadd(old(solver.b[cID]), old(psumOf(solver, r.R))), (loc == 2 ? fmul(solver.Coefficients[termToCompute.CID], solver.values[termToCompute.VID]) : f0))
+//@   ensures @eval-c result == nil ==> solver.c[cID] == fadd(fadd(old(solver.c[cID]), old(psumOf(solver, r.O))), (loc == 3 ? fmul(solver.Coefficients[termToCompute.CID], solver.values[termToCompute.VID]) : f0))
+//   the wire it solved was open, and no other wire changed
+//@   ensures @stored result == nil && loc != 0 ==> solver.solved[termToCompute.VID] && !old(solver.solved)[termToCompute.VID]
